@@ -151,7 +151,12 @@ func mergeRefs(ab *cmdsPair, a, b *cmd) {
 			for _, b := range bl {
 				b.name = storeName
 			}
-		} else if _, found := ab.a.lookup[prefix][bName]; found && ab.b.isRaw {
+		} else if al0, found := ab.a.lookup[prefix][bName]; found && ab.b.isRaw {
+			// Object-group may be referenced by multiple ACL lines from raw.
+			// It has already been added by first reference.
+			if prefix == "object-group" && al0[0] == refCmd {
+				continue
+			}
 			errlog.Abort("Name clash for '%s %s' from raw", prefix, bName)
 		} else if isReferenced[refCmd] && ab.b.isRaw {
 			// Has already been merged with command from Netspoc.
